@@ -1,7 +1,10 @@
 /- tactics shared by the kernel equalities (GenKOps, GenKFns, GenKCtor) -/
-import Qvnt.Lemmas.GenCore
+import Qvnt.Generated.Kernels
+import Qvnt.Lemmas.Bits
 import Mathlib.Tactic.Ring
 import Mathlib.Algebra.Ring.Basic
+import Qvnt.Lemmas.GenCore.rotate_eq
+import Qvnt.Lemmas.GenCore.negWord_eq
 
 namespace Qvnt.Gen
 open Qvnt
